@@ -28,7 +28,15 @@ theorem body_tally__getBucketsIdentity_unchanged : Facts.body_tally__getBucketsI
 
 theorem body_tally__newBucketCache_unchanged : Facts.body_tally__newBucketCache = ["func() *bucketCache", "return &bucketCache{ cache: make(map[uint64]bucketStorage), }"] := rfl
 
-theorem body_tally__newBucketStorage_unchanged : Facts.body_tally__newBucketStorage = ["func( htype histogramType, buckets Buckets, ) bucketStorage", "var ( pairs = BucketPairs(buckets) storage = bucketStorage{ buckets: buckets, hbuckets: make([]histogramBucket, 0, len(pairs)), } )", "for _, pair := range pairs", "| storage.hbuckets = append(storage.hbuckets, histogramBucket{ valueUpperBound: pair.UpperBoundValue(), durationUpperBound: pair.UpperBoundDuration(), })", "return storage"] := rfl
+theorem body_tally__newBucketStorage_unchanged : Facts.body_tally__newBucketStorage = ["func( htype histogramType, buckets Buckets, ) bucketStorage", "switch b := buckets.(type) { case DurationBuckets: buckets = append(DurationBuckets(nil), b...) case ValueBuckets: buckets = append(ValueBuckets(nil), b...) }", "var ( pairs = BucketPairs(buckets) storage = bucketStorage{ buckets: buckets, hbuckets: make([]histogramBucket, 0, len(pairs)), } )", "for _, pair := range pairs", "| storage.hbuckets = append(storage.hbuckets, histogramBucket{ valueUpperBound: pair.UpperBoundValue(), durationUpperBound: pair.UpperBoundDuration(), })", "return storage"] := rfl
+
+theorem body_tally_DurationBuckets_AsDurations_unchanged : Facts.body_tally_DurationBuckets_AsDurations = ["func() []time.Duration", "return v"] := rfl
+
+theorem body_tally_DurationBuckets_AsValues_unchanged : Facts.body_tally_DurationBuckets_AsValues = ["func() []float64", "values := make([]float64, len(v))", "for i, _ := range values", "| values[i] = float64(v[i]) / float64(time.Second)", "return values"] := rfl
+
+theorem body_tally_ValueBuckets_AsDurations_unchanged : Facts.body_tally_ValueBuckets_AsDurations = ["func() []time.Duration", "values := make([]time.Duration, len(v))", "for i, _ := range values", "| values[i] = time.Duration(v[i] * float64(time.Second))", "return values"] := rfl
+
+theorem body_tally_ValueBuckets_AsValues_unchanged : Facts.body_tally_ValueBuckets_AsValues = ["func() []float64", "return v"] := rfl
 
 theorem body_tally_bucketCache_Get_unchanged : Facts.body_tally_bucketCache_Get = ["func( htype histogramType, buckets Buckets, ) bucketStorage", "id := getBucketsIdentity(buckets)", "c.mtx.RLock()", "storage, ok := c.cache[id]", "if !ok { c.mtx.RUnlock() c.mtx.Lock() storage = newBucketStorage(htype, buckets) c.cache[id] = storage c.mtx.Unlock() } else { c.mtx.RUnlock() if !bucketsEqual(buckets, storage.buckets) { storage = newBucketStorage(htype, buckets) } }", "return storage"] := rfl
 
